@@ -151,6 +151,24 @@ def gen_scalar_program(rng, i, jit):
     gen = X.Gen(rng, voc)
     top_cmp = rng.random() < 0.06
     e = gen.comparison() if top_cmp else gen.expression(6)
+    family = None
+    if not top_cmp and rng.random() < 0.05 and variables:
+        # regression family: absolute values of exponentials, which sympy's simplification turns into
+        # exp(re(.)) / 2**re(.) because symbols are not declared real (repaired: fix 23b1a1d)
+        family = "abs-of-exponential"
+        a = gen.gen(2, "small")
+        v = X.var(rng.choice(sorted(variables)))
+        form = rng.choice(["abs-exp", "abs-2pow", "abs-x-exp", "exp-abs-exp"])
+        if form == "abs-exp":
+            e = X.un("call1", X.un("call1", a, f="exp"), f="abs")
+        elif form == "abs-2pow":
+            e = X.un("call1", X.bi("call2", X.num(rng.choice(["2", "3", "0.5"])), a, f="pow"), f="abs")
+        elif form == "abs-x-exp":
+            e = X.un("call1", X.bi("mul", v, X.un("call1", a, f="exp")), f="abs")
+        else:
+            e = X.bi("mul", X.un("call1", v, f="exp"), X.un("call1", X.un("call1", X.un("neg", a), f="exp"), f="abs"))
+        if rng.random() < 0.5:
+            e = X.bi(rng.choice(["add", "mul"]), gen.gen(2, "any"), e)
     # signature: order, synonyms, repl
     sig_names = list(names) + ([indexed_var] if indexed_var else [])
     rng.shuffle(sig_names)
@@ -207,7 +225,7 @@ def gen_scalar_program(rng, i, jit):
             "array_consts": array_consts, "repl": repl,
             "ufuncs": {n: [ps, X.strip(b)] for n, (ps, b) in voc.ufuncs.items()},
             "points": points, "n_scalar": n_sc, "indexed": bool(indexed_var or voc.indexed_consts), "jit": jit,
-            "top_cmp": top_cmp}
+            "top_cmp": top_cmp, "family": family}
     declared = set(sig_names) | set(allc) | {s for l in sig for s in l}
     finish_program(rng, prog, e_txt, declared)
     fr = not top_cmp and not indexed_var and X.in_diff_fragment(prog["ast"]) and not voc.ufuncs
@@ -346,11 +364,36 @@ def gen_tensor_program(rng, i, jit):
     rank = rng.choice([1, 1, 2])
     shape = [rng.choice([1, 2, 3])] if rank == 1 else [rng.choice([1, 2]), rng.choice([2, 3])]
     ex = [gen.expression(4) for _ in range(shape[0])] if rank == 1 else [[gen.expression(3) for _ in range(shape[1])] for _ in range(shape[0])]
-    points = [[sample_value(rng, *variables[n]) for n in names] for _ in range(3 + 3)]
+    n_arr = 3
+    family = None
+    if rng.random() < 0.3:
+        # regression family: components that do not depend on the arguments, evaluated on arrays whose
+        # length equals (or differs from) the row length (repaired: fix 8d22330)
+        family = "constant-components"
+        cgen = X.Gen(rng, X.Vocabulary({}, consts, allow_named=not plain, allow_step=False, fun1=["sin", "cos", "exp", "tanh"], fun2=[]))
+
+        def cexpr():
+            return cgen.literal() if rng.random() < 0.6 else cgen.expression(3)
+        if rank == 1:
+            which = rng.choice(["one", "all"])
+            for j in range(shape[0]):
+                if which == "all" or j == 0:
+                    ex[j] = cexpr()
+            n_arr = rng.choice([shape[0], shape[0], 3, 1])
+        else:
+            which = rng.choice(["row", "row", "all", "column", "scattered"])
+            r0, c0 = rng.randrange(shape[0]), rng.randrange(shape[1])
+            for a in range(shape[0]):
+                for b in range(shape[1]):
+                    if which == "all" or (which == "row" and a == r0) or (which == "column" and b == c0) or \
+                            (which == "scattered" and rng.random() < 0.5):
+                        ex[a][b] = cexpr()
+            n_arr = rng.choice([shape[1], shape[1], shape[0], 3, 1, 4])
+    points = [[sample_value(rng, *variables[n]) for n in names] for _ in range(3 + n_arr)]
     flat = ex if rank == 1 else [e for row in ex for e in row]
     prog = {"id": i, "kind": "tensor", "rank": rank, "sig": [[n] for n in names], "sig_none": False, "consts": consts,
             "array_consts": {}, "repl": {}, "ufuncs": {}, "points": points, "n_scalar": 3, "indexed": False, "jit": jit,
-            "plain": plain, "top_cmp": False}
+            "plain": plain, "top_cmp": False, "family": family}
     finish_program(rng, prog, ex, set(names) | set(consts))
     prog["diff"] = list(names) if all(X.in_diff_fragment(strip_t(canon_pow(e))) for e in flat) else []
     return prog
@@ -449,8 +492,14 @@ def _ufunc_objects(prog, ns_kind):
           "asinh": np.arcsinh, "atanh": np.arctanh, "abs": np.abs}
     out = {}
     for name, (ps, body) in prog["ufuncs"].items():
-        src = f"lambda {', '.join(ps)}: {X.to_text(body)}"
-        out[name] = eval(src, dict(ns))
+        # arguments are converted to float first: an integer literal in the text (`g(5)`) reaches the
+        # user's function as an int, and under numba integer arithmetic would then apply inside it
+        # (`27**-1 == 0`), which is a property of the user's code, not of the expression pipeline
+        src = f"def {name}({', '.join(ps)}):\n" + "".join(f"    {q_} = {q_} * 1.0\n" for q_ in ps) + \
+            f"    return {X.to_text(body)}\n"
+        loc = {}
+        exec(src, dict(ns), loc)
+        out[name] = loc[name]
     return out
 
 
@@ -481,7 +530,7 @@ def worker(prog):
 
     warnings.filterwarnings("ignore")
     signal.signal(signal.SIGALRM, _alarm)
-    signal.alarm(int(os.environ.get("C11_PROG_TIMEOUT", "40")))
+    signal.alarm(int(os.environ.get("C11_PROG_TIMEOUT", "20")))
     obs, errs = [], []
     try:
         _run_program(prog, obs, errs)
@@ -933,6 +982,8 @@ def judge_program(ctx, p, res, ans_main, ansF, stats):
     for kk in set().union(*[X.kinds(e) for _c, e in flat_asts(p)]):
         ctx.hist("construct", kk)
     ctx.hist("kind", kind + ("/jit" if p["jit"] else ""))
+    if p.get("family"):
+        ctx.hist("regression_family", p["family"])
     ctx.hist("number_type", mode)
     ctx.hist("depth", max(X.depth(e) for _c, e in flat_asts(p)))
 
@@ -1000,6 +1051,8 @@ def judge_program(ctx, p, res, ans_main, ansF, stats):
     for route, msg in res["errs"]:
         ctx.hist("impl_error", f"{route.split(':')[0]}:{msg.split(':')[0]}")
         tolerated = route == "timeout"
+        if tolerated:
+            ctx.note(f"time limit exceeded (sympy.simplify): {p['texts']!r}")
         # a route may legitimately fail only where every reference is undefined
         if not tolerated and n_ok > 0:
             ctx.monitor_fail(route.split(":")[0], case, msg, "a value", f"{route.split(':')[0]} raises on a valid program",
